@@ -196,7 +196,9 @@ where
                 Err(_) => continue,
             };
 
-            let r = if let Some(r) = decode_scalar::<G::Scalar>(&r) {
+            let r = if let Some(r) =
+                decode_scalar::<G::Scalar>(&left_pad::<G::Scalar>(r))
+            {
                 r
             } else {
                 continue;
@@ -208,9 +210,9 @@ where
                     Err(_) => continue,
                 };
 
-            let x_plus_r = if let Some(x_plus_r) =
-                decode_scalar::<G::Scalar>(&x_plus_r)
-            {
+            let x_plus_r = if let Some(x_plus_r) = decode_scalar::<G::Scalar>(
+                &left_pad::<G::Scalar>(x_plus_r),
+            ) {
                 x_plus_r
             } else {
                 continue;
@@ -439,6 +441,17 @@ pub trait ExtractBit: Index<usize, Output = u8> {
     }
 }
 impl<const N: usize> ExtractBit for [u8; N] {}
+
+/// `BigUint::to_bytes_be` drops leading zero bytes: restore the scalar width.
+fn left_pad<S: PrimeField>(bytes: Vec<u8>) -> Vec<u8> {
+    let size = size_of::<S::Repr>();
+    if bytes.len() >= size {
+        return bytes;
+    }
+    let mut padded = vec![0u8; size - bytes.len()];
+    padded.extend_from_slice(&bytes);
+    padded
+}
 
 fn decode_scalar<S: PrimeField>(bytes: &[u8]) -> Option<S> {
     if bytes.len() != size_of::<S::Repr>() {
